@@ -300,7 +300,11 @@ def run_property(prop, tier="quick", seed=0, level="proof", only=None, jobs=None
         print(f"KNOWN-FINDING: property={prop} {k.get('what')} [{tname}::{cname}]")
     viol_lines = []
     MAXV = int(os.environ.get('VF_MAX_VIOLATION_LINES', '8'))
-    for v in violations[:MAXV]:
+    spurious = []
+    replays_done = 0
+    for v in list(violations):
+        if len(viol_lines) >= MAXV or replays_done >= 60:
+            break
         fname = (v["task"] + "__" + v["clause"]).replace("/", "_").replace(" ", "_").replace("[", "_").replace("]", "_").replace("=", "-").replace(",", "_")
         path = os.path.join(OUT, "replays", prop, fname[:150] + ".json")
         w = v["witnesses"][0]
@@ -312,7 +316,9 @@ def run_property(prop, tier="quick", seed=0, level="proof", only=None, jobs=None
             rec["replay"] = dict(reproduced=True, note="bounded leg: the failing input was found by running the real code")
         elif w.get("model") is not None:
             res = replay_in_clean_interpreter(prop, v["task"], w["model"])
+            replays_done += 1
             rec["replay"] = res
+            tried = [res]
             if not (res.get("failed") and (v["clause"] in res["failed"] or res.get("uncaught"))):
                 # try the other witnesses
                 ok = False
@@ -320,10 +326,23 @@ def run_property(prop, tier="quick", seed=0, level="proof", only=None, jobs=None
                     if w2.get("model") is None:
                         continue
                     res2 = replay_in_clean_interpreter(prop, v["task"], w2["model"])
+                    replays_done += 1
+                    tried.append(res2)
                     if res2.get("failed") and v["clause"] in res2["failed"]:
                         rec["witness"], rec["replay"], ok = w2, res2, True
                         break
                 if not ok:
+                    # The solver's model did not fail on the real code.  If, for every model tried, the real code EVALUATED this very
+                    # clause and it held (and no assumption was violated by the rounded input), the model is an artefact of the
+                    # encoding (an uninterpreted symbol such as 2**n, acos or a purified quotient given an impossible value): the
+                    # obligation is undecided, not violated.  A clause that the concrete run does not evaluate (it lives inside a
+                    # contract stub) keeps its VIOLATION with the words no-failing-input-found.
+                    if all(v["clause"] in (t_.get("passed") or []) and not t_.get("failed") and not t_.get("assume_failed") and not t_.get("uncaught")
+                           for t_ in tried):
+                        spurious.append(v)
+                        rec["verdict"] = "undecided: the solver's model is not a behaviour of the real code (clause holds on it)"
+                        json.dump(rec, open(path, "w"), indent=1, default=str)
+                        continue
                     suffix = " no-failing-input-found"
         else:
             suffix = " no-failing-input-found"
@@ -331,6 +350,9 @@ def run_property(prop, tier="quick", seed=0, level="proof", only=None, jobs=None
         rec["verifier_output"] = dict(goal=w.get("goal"), decisions=w.get("decisions"), model=w.get("model"))
         json.dump(rec, open(path, "w"), indent=1, default=str)
         viol_lines.append(f"VIOLATION property={prop} replay={path}{suffix}")
+    for v in spurious:
+        violations.remove(v)
+        undecided.append(dict(task=v["task"], clause=v["clause"], n=1, reason="solver model does not reproduce: the clause holds on the real code for the model's input"))
     for ln in viol_lines:
         print(ln)
     if len(violations) > MAXV:
